@@ -120,6 +120,42 @@ def sb4(facts, rep):
                 rep.ok(rule, key, '%s:%s' % (ms[nm].file, ms[nm].line), sorted(fields[nm]))
 
 
+def or1(facts, rep):
+    from . import eng_gd
+    rule = 'OR-1'
+    rep.rule(rule, 'ordering: in viterbi the end probabilities are folded into the last column before the best final state is '
+                   'chosen - no Model::end_prob call is reachable after the call of viterbi_traceback (adding the end term '
+                   'only to the winner would report a consistent but sub-optimal path)')
+    b = facts.body('stats::hmm::viterbi')
+    if b is None:
+        rep.missing(rule, 'stats::hmm::viterbi', 'not found')
+        return
+    rep.analysed_body(b)
+    tb = [bb for bb, t in b.calls() if call_info(t) and call_info(t)['fn'].endswith('viterbi_traceback')]
+    ends = [bb for bb, t in b.calls() if call_info(t) and call_info(t)['fn'].endswith('Model::end_prob')]
+    for c in facts.closures_of(b.path):
+        if any(call_info(t) and call_info(t)['fn'].endswith('Model::end_prob') for _bb, t in c.calls()):
+            for bb in b.reachable(0):
+                for s in b.stmts(bb):
+                    if s['k'] == 'assign' and s['r']['k'] == 'agg' and s['r'].get('closure') == c.path:
+                        ends.append(bb)
+    key = 'stats::hmm::viterbi|end-term-before-argmax'
+    if not tb or not ends:
+        rep.bad(rule, key, '%s:%s' % (b.file, b.line), 'viterbi must call viterbi_traceback after applying Model::end_prob (found '
+                                                       '%d traceback calls, %d end_prob sites)' % (len(tb), len(ends)))
+        return
+    late = [e for e in ends if any(e in eng_gd.region(b, t) and e != t for t in tb)]
+    if late:
+        rep.bad(rule, key, b.loc(late[0]), 'end_prob is applied after the best final state has been chosen: the returned path is not '
+                                           'the most probable one when end probabilities differ between states')
+    else:
+        rep.ok(rule, key, b.loc(tb[0]), 'end_prob applied to the last column before viterbi_traceback')
+
+
 def run(facts, rep, ctx):
+    # forward/backward sum over paths with LogProb::ln_sum_exp: its term selection is part of this property's mechanism
+    from .c15 import gd8b
+    gd8b(facts, rep)
+    or1(facts, rep)
     sb3(facts, rep)
     sb4(facts, rep)
